@@ -14,7 +14,7 @@
 From PM Require Import Model.Prelude Model.Domain Model.Automaton
   Model.Traversal Model.Matchers Model.DomString
   Cert.LabCheck Cert.WinCheck Proofs.AbsEquiv Proofs.StringExact Proofs.StringSingle
-  Model.DomPGKeys Model.DomPG Cert.PGCert Proofs.PGComplete.
+  Model.DomPGKeys Model.DomPG Cert.PGCert Proofs.PGComplete Model.DomMatrix Proofs.MatrixExact Proofs.MatrixSingle.
 
 Theorem c03_accepts_iff_constraints :
   forall (K V M H P : Type) (D : DomOps K V M H P), DomEq D ->
@@ -71,6 +71,19 @@ Proof.
   rewrite (s_naive_exact pats h f2 ms2 i p a Nv Hp Hne). tauto.
 Qed.
 
+Theorem c03_matrix_many_equals_naive :
+  forall A L rk ids (pats : list mpattern) present h f1 f2 ms1 ms2 i p s,
+    m_certified A L rk ids pats present ->
+    run matrix_dom f1 A h = Ok ms1 ->
+    naive matrix_dom f2 (map m_cvec pats) h = Ok ms2 ->
+    nth_error pats i = Some p -> nth_error present i = Some true ->
+    ((exists a b, In (N.of_nat i, MBound s a b) ms1) <-> (exists a b, In (N.of_nat i, MBound s a b) ms2)).
+Proof.
+  intros A L rk ids pats present h f1 f2 ms1 ms2 i p s C R Nv Hp Hpr.
+  rewrite (m_run_exact A L rk ids pats present h f1 ms1 i p s C R Hp Hpr).
+  rewrite (m_naive_exact pats h f2 ms2 i p s Nv Hp). tauto.
+Qed.
+
 (** port graphs: the same equivalence under the valuation of a host and a binding map *)
 Theorem c03_portgraph_accepts_iff_constraints :
   forall (A : automaton pgkey pgpred) (L : labelling) cs present i cp (h : pghost) (m : pgmap),
@@ -83,4 +96,5 @@ Proof. exact pg_accepts_iff. Qed.
 Print Assumptions c03_accepts_iff_constraints.
 Print Assumptions c03_portgraph_accepts_iff_constraints.
 Print Assumptions c03_string_many_equals_naive.
+Print Assumptions c03_matrix_many_equals_naive.
 Print Assumptions c04_c06_certified_automata_agree.
